@@ -1,16 +1,26 @@
 #!/usr/bin/env python3
-"""Merge the evidence of the two C10 build profiles into one file (second argument is rewritten)."""
+"""Merge evidence files into the second argument (rewritten).
+   merge_evidence.py <checked.json> <plain.json>      the two build profiles of one check
+   merge_evidence.py --probe <probe.json> <main.json> add the probe corpus part (C19)"""
 import json, sys
+if sys.argv[1] == "--probe":
+    a = json.load(open(sys.argv[2])); b = json.load(open(sys.argv[3]))
+    b["coverage"]["conjuring_probes"] = a["coverage"]
+    b["coverage"]["evaluations"] += a["coverage"]["evaluations"]
+    b["wall_s"] += a["wall_s"]; b["violations"] = b.get("violations", 0) + a.get("violations", 0)
+    json.dump(b, open(sys.argv[3], "w"), indent=1); sys.exit(0)
 a = json.load(open(sys.argv[1])); b = json.load(open(sys.argv[2]))
 ca, cb = a["coverage"], b["coverage"]
-out = b
-out["coverage"] = dict(cb)
+out = a
+out["coverage"] = dict(ca)
 out["coverage"]["evaluations"] = ca["evaluations"] + cb["evaluations"]
-# the two profiles run the same seeds: distinct cases are counted once
+# the plain profile re-runs a prefix of the same run indices: its cases are counted once, under "checked"
 out["coverage"]["distinct_nontrivial"] = max(ca["distinct_nontrivial"], cb["distinct_nontrivial"])
-out["coverage"]["profile"] = "checked (debug assertions + overflow checks) and plain release, same seeds"
-out["coverage"]["per_profile"] = {"checked": {k: ca[k] for k in ("evaluations", "distinct_nontrivial", "totals", "violations_reported", "known_findings_met")},
-                                   "plain": {k: cb[k] for k in ("evaluations", "distinct_nontrivial", "totals", "violations_reported", "known_findings_met")}}
+out["coverage"]["profile"] = "checked (optimised, debug assertions + overflow checks) and plain release; plain re-runs the first half of the same run indices"
+keys = ("evaluations", "distinct_nontrivial", "run_indices", "totals", "violations_reported", "known_findings_met", "runs_aborted_by_foreign_violation", "batch_digest", "worker_crashes")
+out["coverage"]["per_profile"] = {"checked": {k: ca.get(k) for k in keys}, "plain": {k: cb.get(k) for k in keys}}
+out["coverage"]["violations_reported"] = ca.get("violations_reported", []) + cb.get("violations_reported", [])
+out["coverage"]["known_findings_met"] = sorted(set(ca.get("known_findings_met", []) + cb.get("known_findings_met", [])))
 out["wall_s"] = a["wall_s"] + b["wall_s"]
 out["violations"] = a.get("violations", 0) + b.get("violations", 0)
 json.dump(out, open(sys.argv[2], "w"), indent=1)
